@@ -5,8 +5,8 @@ package mutate
 func init() {
 	Register(
 		Variant{Property: "C03", Name: "netpol-ports-examined-before-peers", File: fNetpol, Func: "NetworkPolicy.EgressAllowedConn",
-			Old: "\t\tpeerSelected, err := np.ruleSelectsPeer(rulePeers, dst)\n\t\tif err != nil {\n\t\t\treturn false, err\n\t\t}\n\t\tif !peerSelected {\n\t\t\tcontinue\n\t\t}\n\t\tconnSelected, err := np.ruleConnsContain(rulePorts, protocol, port, dst)\n\t\tif err != nil {\n\t\t\treturn false, err\n\t\t}\n\t\tif connSelected {\n\t\t\treturn true, nil\n\t\t}\n",
-			New: "\t\tconnSelected, err := np.ruleConnsContain(rulePorts, protocol, port, dst)\n\t\tif err != nil {\n\t\t\treturn false, err\n\t\t}\n\t\tif !connSelected {\n\t\t\tcontinue\n\t\t}\n\t\tpeerSelected, err := np.ruleSelectsPeer(rulePeers, dst)\n\t\tif err != nil {\n\t\t\treturn false, err\n\t\t}\n\t\tif peerSelected {\n\t\t\treturn true, nil\n\t\t}\n",
+			Old:  "\t\tpeerSelected, err := np.ruleSelectsPeer(rulePeers, dst)\n\t\tif err != nil {\n\t\t\treturn false, err\n\t\t}\n\t\tif !peerSelected {\n\t\t\tcontinue\n\t\t}\n\t\tconnSelected, err := np.ruleConnsContain(rulePorts, protocol, port, dst)\n\t\tif err != nil {\n\t\t\treturn false, err\n\t\t}\n\t\tif connSelected {\n\t\t\treturn true, nil\n\t\t}\n",
+			New:  "\t\tconnSelected, err := np.ruleConnsContain(rulePorts, protocol, port, dst)\n\t\tif err != nil {\n\t\t\treturn false, err\n\t\t}\n\t\tif !connSelected {\n\t\t\tcontinue\n\t\t}\n\t\tpeerSelected, err := np.ruleSelectsPeer(rulePeers, dst)\n\t\tif err != nil {\n\t\t\treturn false, err\n\t\t}\n\t\tif peerSelected {\n\t\t\treturn true, nil\n\t\t}\n",
 			Rule: "C03-peer-first", Why: "seeded C03-r4a shape"},
 		Variant{Property: "C11", Name: "isempty-by-equality-with-the-empty-set", File: fPortSet, Func: "PortSet.IsEmpty", Old: "return p.Ports.IsEmpty() && len(p.NamedPorts) == 0", New: "return p.Equal(MakePortSet(false))", Rule: "C11-i", Why: "seeded C11-r4b"},
 		Variant{Property: "C05", Name: "portset-from-runtime-range-by-toset", File: fPortSet, Func: "PortSet.AddPortRange", Old: "p.Ports.AddInterval(interval.New(minPort, maxPort))", New: "p.Ports = p.Ports.Union(interval.New(minPort, maxPort).ToSet())", Rule: "C05-c-range", Why: "seeded C05-r4a shape"},
